@@ -393,9 +393,37 @@ def sec2gmt_int(text, ndec=0, unit=1):
 # structured values (JSON records): flatten / unflatten / json-stringify / json-parse
 
 class Num(str):
-    """A JSON number kept as its source text."""
+    """A JSON number kept as its source text.  A number is never equal to the string with the same text
+    (1 vs "1" is exactly what json-stringify / json-parse and the bystander rule are about)."""
     def __repr__(self):
         return f"Num({str.__repr__(self)})"
+
+    def __eq__(self, other):
+        if isinstance(other, Num):
+            return str.__eq__(self, other)
+        return False if isinstance(other, str) else NotImplemented
+
+    def __ne__(self, other):
+        r = self.__eq__(other)
+        return r if r is NotImplemented else not r
+
+    def __hash__(self):
+        return hash(("Num", str(self)))
+
+
+def typed_text(v):
+    """Canonical text of a structured value that keeps what Python's == forgets: key order inside maps,
+    number vs string, true vs 1."""
+    return json_encode(v)
+
+
+def same_fields(a, b):
+    """Two lists of (name, value): equal names, order, value types and - inside maps - key order."""
+    if a != b:
+        return False
+    if all(type(v) is str for _, v in a) and all(type(v) is str for _, v in b):
+        return True
+    return [(k, typed_text(v)) for k, v in a] == [(k, typed_text(v)) for k, v in b]
 
 
 def flatten_value(prefix, v, sep, out):
